@@ -270,6 +270,8 @@ pub fn gen_sched(rng: &mut Rng, lazy: bool) -> SchedGen {
     }
     // a third of the runs are built and driven through the `Cucumber` builder (its delegating methods + `run`)
     g.cfg.via_cucumber = rng.chance(1, 3);
+    // a third of the runs are polled by a STRICT executor (fresh waker per poll, re-poll only when it was woken)
+    g.cfg.strict_wakers = rng.chance(1, 3);
     // limits: builder / CLI
     g.cfg.builder_conc = match rng.below(5) { 0 => None, 1 => Some(None), _ => Some(Some(rng.range(1, 3))) };
     g.cfg.cli_conc = rng.chance(1, 4).then(|| rng.range(1, 3));
